@@ -963,7 +963,14 @@ void XdlEncoder::new_string(const char* x)
 		case '\f':
 			_out << "\\f"; break;
 		default:
-			_out << c;
+			if ((unsigned char)c < ' ') // other control characters are not allowed raw in JSON (nor accepted by the parser)
+			{
+				char buf[8];
+				snprintf(buf, sizeof(buf), "\\u%04x", c);
+				_out << buf;
+			}
+			else
+				_out << c;
 		}
 	}
 	_out << '\"';
